@@ -21,6 +21,13 @@ PROPS = {
         "level_prefix": "Partial proof -- contracts discharged without bound on the mechanisms named below, not the whole statement (what is left out is listed): ",
         "units": ["clientcache"],
         "kani": [],
+        "extra_searches": [
+            {"bin": "c20_search_cache", "crate": "replay_client", "release": True,
+             "what": "the real cache::Connection under tokio's paused clock against a mock upstream: 2240 sequences of three queries (flag variants plain / RD=0 / AD=1 / DO=1, at times around the "
+                     "bounds) for seven response shapes (answer, answer with RRSIG, answer with AD, NXDOMAIN, NODATA with the SOA first, NODATA with NS records ahead of the SOA, delegation): every TTL handed "
+                     "out is the upstream's minus the whole seconds since some earlier fetch, nothing is served past its TTLs or the configured bound of its kind, no RRSIG / NSEC / NSEC3 record and no AD bit "
+                     "for a query that did not ask (bounded exploration; harness after a round-11 seeding sub-agent's demonstration programs; it supplies the concrete sequence for seeds C20-1..3)"},
+        ],
         "explanation": "The ageing and never-stale clauses, on the functions that implement them (net/client/cache.rs, real text). validity(): how long an upstream response may be served is never more than the configured "
                        "maximum, the bound configured for its kind (NXDOMAIN, other error codes, transport failures; a truncated response is not kept unless configured), nor the TTL of any record in its answer, "
                        "authority or additional section (OPT aside) -- three loops over the real section iterators' model, for messages of any size. A cache entry (Value::new, new_from_value_and_response) keeps that "
